@@ -26,7 +26,14 @@ pub fn perr(e: &ParserError) -> (String, u32) {
         AdditionalTokensError { error_line, .. } => ("AdditionalTokensError".into(), *error_line),
         MissingVersionInfo => ("MissingVersionInfo".into(), 0),
         InvalidVersion { .. } => ("InvalidVersion".into(), 0),
-        _ => ("Other".into(), 0),
+        other => {
+            // variants this harness does not name (ParserError is non_exhaustive): variant name and error_line from
+            // the Debug text
+            let d = format!("{other:?}");
+            let name: String = d.chars().take_while(|c| c.is_alphanumeric()).collect();
+            let line = d.split("error_line: ").nth(1).map(|r| r.chars().take_while(|c| c.is_ascii_digit()).collect::<String>()).and_then(|n| n.parse().ok()).unwrap_or(0);
+            (name, line)
+        }
     }
 }
 
